@@ -25,10 +25,26 @@ every trie state, collapse level and hash function:
                            bytes, proof verifies to (hash t0, owner's value)
   rollback_clears_queues   both entry points forget the rolled-back commit's created / pending-deletion lists
                            (fix 6d30809 for RollbackTrie), so later GC passes cannot delete checkpoint nodes on its behalf
+  C13_protocol_*           WHOLE HISTORIES with any number of SaveRoot / Rollback cycles, mixed with Update / Delete / Root() /
+                           Commit(any level) / DeleteNodes in any position, restricted only by the protocol under which
+                           Rollback is meaningful (automaton `pctl`, Model/WmptProtocol.lean: SaveRoot on a clean root;
+                           Rollback while the checkpoint is intact — no second Commit since SaveRoot, at most ONE
+                           DeleteNodes pass after that commit, any number before it; Rollback of uncommitted changes is
+                           allowed too). Under `ProtocolOK` (`NoSharedContent` of Props/C11 for the live contents + no
+                           collision between the content being committed and the checkpoint + a checkpoint of weight 0 is
+                           the empty trie): after EVERY accepted history the live trie represents the spec content
+                           (`pspecRun`: a Rollback falls back to the checkpoint content), every node of the last commit is
+                           in storage (`C13_protocol_stored`), while Rollback is allowed every node of the checkpoint is in
+                           storage (`C13_protocol_checkpoint_stored`), a history that ends with a clean root is
+                           recoverable with the spec's answers (`C13_protocol_recoverable`, `…_answers_are_spec`), and
+                           right after any accepted Rollback the trie answers every block like the content at the last
+                           SaveRoot (`C13_protocol_rollback_restores`). `second_gc_pass_breaks_rollback` (decide): the
+                           protocol's "one pass" bound is sharp.
 -/
 import Verif.Lemmas.WmptOps
 import Verif.Lemmas.WmptRollback
 import Verif.Lemmas.WmptCopyRoot
+import Verif.Lemmas.WmptProtocol
 import Verif.Lemmas.WmptSpec
 import Verif.Model.WmptHistory
 import Verif.Model.WmptToy
@@ -242,5 +258,110 @@ example :
     let r := (rollbackTrie toyH later.t cp).1
     r.weight = 6 ∧ sameAnswers toyH r (reopen toyH cpSt.t) ∧ r.created = [] ∧ r.tempDeleted = [] ∧ r.deleted = [] := by
   decide
+
+/-! ### whole histories under the checkpoint protocol -/
+
+/-- the side conditions of the protocol theorems: the history is accepted by the protocol automaton; 32-byte keys and
+    non-empty values; after every prefix the live content fits the encodings and has no two node occurrences with equal
+    hash (`NoSharedContent` of Props/C11); at the first Commit after a SaveRoot no node of the content being committed
+    collides with a different node of the checkpoint; where a Rollback happens, a checkpoint of total weight 0 is the
+    empty trie (Rollback opens the empty trie for weight 0) -/
+def ProtocolOK (H : Bytes → Bytes) (ops : List HOp) : Prop :=
+  pctlRun ops ≠ none ∧ (∀ op ∈ ops, op.wf) ∧
+  (∀ p q, ops = p ++ q → RepOps.PTOK (pspecRun p).1 ∧ Distinct H (pspecRun p).1) ∧
+  (∀ p lvl q, ops = p ++ .commit lvl :: q → ∀ c, pctlRun p = some c → c.mode = .armed →
+    ∀ x y, PT.Sub x (pspecRun p).1 → PT.Sub y (pspecRun p).2.2 →
+      PT.hash H x = PT.hash H y → PT.persist H x = PT.persist H y) ∧
+  (∀ p q, ops = p ++ .rollback :: q → (pspecRun p).2.2.weight = 0 → (pspecRun p).2.2 = .none)
+
+/-- the collision clause of `ProtocolOK` follows from: no two different nodes of any two intermediate live contents have
+    the same hash -/
+theorem protocol_collision_clause (H : Bytes → Bytes) (ops : List HOp)
+    (hinj : HashInj H (fun x => ∃ p q, ops = p ++ q ∧ PT.Sub x (pspecRun p).1)) :
+    ∀ p lvl q, ops = p ++ .commit lvl :: q → ∀ c, pctlRun p = some c → c.mode = .armed →
+      ∀ x y, PT.Sub x (pspecRun p).1 → PT.Sub y (pspecRun p).2.2 →
+        PT.hash H x = PT.hash H y → PT.persist H x = PT.persist H y :=
+  protocol_hcol_of_global ops hinj
+
+/-- after any accepted history every node of the last committed trie (after a Rollback: of the checkpoint) is in storage -/
+theorem C13_protocol_stored (H : Bytes → Bytes) (hlen : ∀ x, (H x).length = 32) (ops : List HOp)
+    (h : ProtocolOK H ops) : StoredAll H (hrun H ops).t.store (pspecRun ops).2.1 :=
+  protocol_stored hlen ops h.1 h.2.1 h.2.2.1 h.2.2.2.1 h.2.2.2.2
+
+/-- while Rollback is allowed, every node of the checkpoint is in storage -/
+theorem C13_protocol_checkpoint_stored (H : Bytes → Bytes) (hlen : ∀ x, (H x).length = 32) (ops : List HOp)
+    (h : ProtocolOK H ops) (c : PCtl) (hc : pctlRun ops = some c) (hm : c.mode ≠ .idle) :
+    StoredAll H (hrun H ops).t.store (pspecRun ops).2.2 :=
+  protocol_checkpoint_stored hlen ops h.1 h.2.1 h.2.2.1 h.2.2.2.1 h.2.2.2.2 c hc hm
+
+/-- an accepted history that ends with a clean root (after a Commit or a Rollback) is recoverable -/
+theorem C13_protocol_recoverable (H : Bytes → Bytes) (hlen : ∀ x, (H x).length = 32) (ops : List HOp)
+    (h : ProtocolOK H ops) (hd : (hrun H ops).t.root.dirty = false) :
+    sameAnswers H (reopen H (hrun H ops).t) (hrun H ops).t :=
+  protocol_recoverable hlen ops h.1 h.2.1 h.2.2.1 h.2.2.2.1 h.2.2.2.2 hd
+
+/-- …with the spec's answers -/
+theorem C13_protocol_answers_are_spec (H : Bytes → Bytes) (hlen : ∀ x, (H x).length = 32) (ops : List HOp)
+    (h : ProtocolOK H ops) (hd : (hrun H ops).t.root.dirty = false) (b : Nat) (hb1 : 1 ≤ b)
+    (hb : b ≤ (pspecRun ops).1.weight) :
+    ∃ k v key, ownerSpec (pspecRun ops).1.entries b = some (k, v) ∧ RepMore.keybytesToHex key = k ∧ key.length = 32 ∧
+      (blockProof H (reopen H (hrun H ops).t) b).2 =
+        .ok (key, Cbor.encTrie (((pspecRun ops).1.proofPairs H b).map Cbor.encBase)) ∧
+      (blockProof H (hrun H ops).t b).2 =
+        .ok (key, Cbor.encTrie (((pspecRun ops).1.proofPairs H b).map Cbor.encBase)) ∧
+      verifyPairs H (((pspecRun ops).1.proofPairs H b).map PairD.ok) b = .ok ((rootHash H (hrun H ops).t).2, v) :=
+  protocol_answers_are_spec hlen ops h.1 h.2.1 h.2.2.1 h.2.2.2.1 h.2.2.2.2 hd b hb1 hb
+
+/-- MAIN (protocol form of C13): right after ANY accepted Rollback — whatever cycles of SaveRoot / changes / Commit /
+    GC / Rollback preceded it — the live content is the content at the last SaveRoot, the root is clean, and the trie
+    answers every block like that content (owner key, honest proof bytes, proof verifies to the root) -/
+theorem C13_protocol_rollback_restores (H : Bytes → Bytes) (hlen : ∀ x, (H x).length = 32) (p : List HOp)
+    (h : ProtocolOK H (p ++ [.rollback])) :
+    (pspecRun (p ++ [.rollback])).1 = (pspecRun p).2.2 ∧
+    (hrun H (p ++ [.rollback])).t.root.dirty = false ∧
+    ∀ b, 1 ≤ b → b ≤ (pspecRun p).2.2.weight →
+      ∃ k v key, ownerSpec (pspecRun p).2.2.entries b = some (k, v) ∧ RepMore.keybytesToHex key = k ∧ key.length = 32 ∧
+        (blockProof H (hrun H (p ++ [.rollback])).t b).2 =
+          .ok (key, Cbor.encTrie (((pspecRun p).2.2.proofPairs H b).map Cbor.encBase)) ∧
+        verifyPairs H (((pspecRun p).2.2.proofPairs H b).map PairD.ok) b =
+          .ok ((rootHash H (hrun H (p ++ [.rollback])).t).2, v) := by
+  obtain ⟨h1, h2, h3⟩ := protocol_rollback_restores hlen p h.1 h.2.1 h.2.2.1 h.2.2.2.1 h.2.2.2.2
+  refine ⟨h1, h2, fun b hb1 hb => ?_⟩
+  obtain ⟨k, v, key, a1, a2, a3, _, a5, a6⟩ := h3 b hb1 hb
+  exact ⟨k, v, key, a1, a2, a3, a5, a6⟩
+
+
+set_option maxRecDepth 1000000 in
+/-- an accepted history with three checkpoint cycles (toy hash, `decide`): cycle 1 is rolled back after commit + one GC
+    pass, cycle 2 is accepted (next SaveRoot) with GC passes around it, cycle 3 rolls back uncommitted changes. The
+    protocol accepts it, and at the end the trie holds exactly the content of the last checkpoint and is recoverable -/
+example :
+    let kA : List Nib := List.replicate 64 1
+    let kD : List Nib := 2 :: List.replicate 63 4
+    let kE : List Nib := 2 :: 5 :: List.replicate 62 4
+    let ops : List HOp := [.upd kA [1, 0xee] 2, .upd kD [2, 0xee] 3, .commit (-1),
+      .saveRoot, .upd kA [1, 0xee] 2, .upd kD [9] 1, .upd kE [3] 4, .gc, .commit 1, .gc, .rollback,
+      .gc, .saveRoot, .del kD, .upd kE [3] 4, .commit 0, .gc, .root, .gc,
+      .saveRoot, .upd kA [7] 9, .gc, .rollback, .gc, .gc]
+    (pctlRun ops).isSome = true ∧ (hrun toyH ops).t.root.dirty = false ∧ (hrun toyH ops).t.weight = 6 ∧
+      (pspecRun ops).1.weight = 6 ∧ (pspecRun ops).1.entries = (pspecRun ops).2.2.entries ∧
+      sameAnswers toyH (reopen toyH (hrun toyH ops).t) (hrun toyH ops).t := by
+  refine ⟨?_, ?_, ?_, ?_, ?_, ?_⟩ <;> decide
+
+set_option maxRecDepth 1000000 in
+/-- the protocol's bound of ONE DeleteNodes pass between the commit and the Rollback is sharp: with a second pass the
+    automaton rejects the history, and indeed the rolled-back trie can no longer answer for its checkpoint (the first
+    pass staged the checkpoint nodes the commit superseded, the second deleted them) -/
+theorem second_gc_pass_breaks_rollback :
+    let kA : List Nib := List.replicate 64 1
+    let kD : List Nib := 2 :: List.replicate 63 4
+    let cp : List HOp := [.upd kA [1, 0xee] 2, .upd kD [2, 0xee] 3, .commit (-1)]
+    let ops : List HOp := cp ++ [.saveRoot, .upd kD [9] 1, .commit (-1), .gc, .gc, .rollback]
+    let ops1 : List HOp := cp ++ [.saveRoot, .upd kD [9] 1, .commit (-1), .gc, .rollback]
+    pctlRun ops = none ∧ (pctlRun ops1).isSome = true ∧
+      (hrun toyH ops).t.weight = 5 ∧ (hrun toyH ops1).t.weight = 5 ∧
+      sameAnswers toyH (hrun toyH ops1).t (reopen toyH (hrun toyH cp).t) ∧
+      Res.isOk (blockProof toyH (hrun toyH ops).t 5).2 = false := by
+  refine ⟨?_, ?_, ?_, ?_, ?_, ?_⟩ <;> decide
 
 end Verif.Props.C13
